@@ -761,6 +761,7 @@ func arraysRun[T num, A arr[T, A]](k kit[T, A], rc *RunCtx, o *Outcome) {
 			x.log = append(x.log, what)
 			cons := isConsecutive(rv.offs)
 			var goUnrolled []T
+			var goMax, goMin T
 			both(what, "bulk", v, func(a A) {
 				isGo := any(a) == any(v.g)
 				fam := "bulk"
@@ -795,6 +796,14 @@ func arraysRun[T num, A arr[T, A]](k kit[T, A], rc *RunCtx, o *Outcome) {
 				}
 				if float64(a.Maximum()) != mx || float64(a.Minimum()) != mn {
 					x.fail(fam, "minmax-differs", tag+"minmax", "%s: Maximum/Minimum = %v/%v, expected %v/%v", rv.how, a.Maximum(), a.Minimum(), mx, mn)
+					return
+				}
+				// (which of two tied extremes is returned - zeros of different sign - is the same on both
+				// back-ends: bit-level comparison of the C-backed answer with the Go-backed one)
+				if isGo {
+					goMax, goMin = a.Maximum(), a.Minimum()
+				} else if !sameVal(a.Maximum(), float64(goMax)) || !sameVal(a.Minimum(), float64(goMin)) || math.Signbit(float64(a.Minimum())) != math.Signbit(float64(goMin)) || math.Signbit(float64(a.Maximum())) != math.Signbit(float64(goMax)) {
+					x.fail(fam, "minmax-differs", tag+"minmax/tie", "%s: Maximum/Minimum on the C-backed array = %v/%v, on the Go-backed array %v/%v (bit level)", rv.how, a.Maximum(), a.Minimum(), goMax, goMin)
 					return
 				}
 				if isGo {
@@ -1672,6 +1681,24 @@ func largeBlockProbe[T num, A arr[T, A]](k kit[T, A], x *arrCtx, w *simrt.Tape) 
 			}
 			// put the element back
 			child.Set([]int{0, cc}, fresh[rr*cols+cc])
+			// a bulk write of a handful of elements into a tiny contiguous view of the large array
+			k2 := cols
+			if k2 > 6 {
+				k2 = 6
+			}
+			small := make([]T, k2)
+			for i := range small {
+				small[i] = T(211 + i)
+			}
+			tiny := a.Slice([]int{rr, 0}, []int{1, k2}, nil)
+			tiny.CopyFrom(k.fromSlice(append([]T(nil), small...), []int{1, k2}))
+			for i := 0; i < k2; i++ {
+				if got := a.Get([]int{rr, i}); got != small[i] {
+					x.fail(fam, "storage-differs", tag+"large-block", "%s: after CopyFrom of %d elements into a row view, element [%d %d] of the array is %v, %v was written", what, k2, rr, i, got, small[i])
+					return
+				}
+				a.Set([]int{rr, i}, fresh[rr*cols+i])
+			}
 		}()
 		if escaped != nil {
 			x.fail(fam, "panic", tag+"panic/large", "%s panicked in the bulk read: %v", what, escaped)
